@@ -215,13 +215,14 @@ class PseudoOperand(Operand):
                     self.value = self.value.resolve({})
                 except ValueError:
                     pass
-            if not self.value.is_numeric():
+            if not (self.value.is_numeric() or self.value.is_symbol() or self.value.is_expression()):
                 raise ValueTypeError("[{}] is not a constant value".format(operand_string))
-            number = -self.value.int if self.value.is_negative() else self.value.int
-            if self.operand_string.startswith("$") and len(self.operand_string) > 3:
-                self.value = ExtendedNumericValue(number)
-            elif self.value.hex_len() == 2:
-                self.value = DirectNumericValue(number)
+            if self.value.is_numeric():
+                number = -self.value.int if self.value.is_negative() else self.value.int
+                if self.operand_string.startswith("$") and len(self.operand_string) > 3:
+                    self.value = ExtendedNumericValue(number)
+                elif self.value.hex_len() == 2:
+                    self.value = DirectNumericValue(number)
 
     def resolve_symbols(self, symbol_table):
         if self.instruction.mnemonic in ["FCB", "FDB", "RMB"] and (self.value.is_symbol() or self.value.is_expression()):
